@@ -32,6 +32,11 @@ pub struct Cfg {
     /// never answered; empty = no automatic answers.
     #[serde(default)]
     pub ping_delays_us: Vec<Option<u64>>,
+    /// The broker announces the planned Maximum Packet Size of every connection even if something
+    /// the client retains exceeds it (C14 studies exactly that; everywhere else a smaller limit
+    /// is applied only where everything retained still fits).
+    #[serde(default)]
+    pub unconditional_limits: bool,
 }
 
 impl Default for Cfg {
@@ -47,6 +52,7 @@ impl Default for Cfg {
             auth: None,
             jitter_us: 0,
             ping_delays_us: vec![],
+            unconditional_limits: false,
         }
     }
 }
